@@ -14,6 +14,7 @@ import (
 	"fmt"
 	"os"
 	"reflect"
+	"regexp"
 	"sort"
 	"strconv"
 	"strings"
@@ -456,18 +457,38 @@ type dispOut struct {
 	fn       int
 	src, dst *model.FeatureAddressType
 	payload  string // JSON of the function's data (replies and notifications)
+	nEntries int    // number of entries of a subscription / binding data reply
+	valS     string // canonical value id of the payload (set by dispRun.show)
+}
+
+// sdev: the device part of the source: 0 = the local device address, - = absent, 9 = anything else
+func (o dispOut) sdev() string {
+	switch {
+	case o.src == nil || o.src.Device == nil:
+		return "-"
+	case string(*o.src.Device) == dispLocalDev:
+		return "0"
+	}
+	return "9"
+}
+
+func (o dispOut) refS() string {
+	if o.ref < 0 {
+		return "-"
+	}
+	return strconv.FormatInt(o.ref, 10)
 }
 
 func (o dispOut) String() string {
 	switch o.kind {
 	case "reply":
-		return fmt.Sprintf("reply %d %d %s %s", o.ref, o.fn, h.AddrS(o.src), h.AddrS(o.dst))
+		return fmt.Sprintf("reply %s %d %s %s %s d%s", o.refS(), o.fn, h.AddrS(o.src), h.AddrS(o.dst), o.valS, o.sdev())
 	case "result":
-		return fmt.Sprintf("result %d %d %s %s", o.ref, o.err, h.AddrS(o.src), h.AddrS(o.dst))
+		return fmt.Sprintf("result %s %d %s %s d%s", o.refS(), o.err, h.AddrS(o.src), h.AddrS(o.dst), o.sdev())
 	case "readReq":
 		return fmt.Sprintf("readReq %d %s %s", o.fn, h.AddrS(o.src), h.AddrS(o.dst))
 	case "notify":
-		return fmt.Sprintf("notify %d %s %s", o.fn, h.AddrS(o.src), h.AddrS(o.dst))
+		return fmt.Sprintf("notify %d %s %s %s", o.fn, h.AddrS(o.src), h.AddrS(o.dst), o.valS)
 	}
 	return "other:" + o.kind
 }
@@ -509,6 +530,12 @@ func dispParseOut(m []byte) dispOut {
 			b, _ := json.Marshal(cd.Value)
 			o.payload = string(b)
 		}
+		if c.NodeManagementSubscriptionData != nil {
+			o.nEntries = len(c.NodeManagementSubscriptionData.SubscriptionEntry)
+		}
+		if c.NodeManagementBindingData != nil {
+			o.nEntries = len(c.NodeManagementBindingData.BindingEntry)
+		}
 	}
 	return o
 }
@@ -534,10 +561,10 @@ func dispEntOf(addr string) string { return strings.SplitN(addr, "/", 2)[0] }
 
 // ---------- one history
 
-type dispFlags struct{ r, u, e bool }
+type dispFlags struct{ r, u, e, o bool }
 
 func (f dispFlags) String() string {
-	return fmt.Sprintf("%d %d %d", h.B2i(f.r), h.B2i(f.u), h.B2i(f.e))
+	return fmt.Sprintf("%d %d %d %d", h.B2i(f.r), h.B2i(f.u), h.B2i(f.e), h.B2i(f.o))
 }
 
 type dispRun struct {
@@ -551,6 +578,11 @@ type dispRun struct {
 	done   []string
 	failed bool // a mismatch ended the history
 	ctr    uint64
+	// abstract data values: the model names a value by the operation that set it (value id); the harness records the
+	// digest the data had right after that operation and interns digests, so that both sides print the same token
+	valSeq    int
+	valDigest map[int]string
+	digIDs    map[string]int
 	// statistics for the floors
 	st *dispStats
 }
@@ -603,6 +635,99 @@ func (x *dispRun) traces() [dispNPeers + 1][]dispOut {
 	return t
 }
 
+func (x *dispRun) digID(d string) int {
+	if x.digIDs == nil {
+		x.digIDs = map[string]int{}
+	}
+	id, ok := x.digIDs[d]
+	if !ok {
+		id = len(x.digIDs) + 1
+		x.digIDs[d] = id
+	}
+	return id
+}
+
+func (x *dispRun) newVal() int { x.valSeq++; return x.valSeq }
+
+func (x *dispRun) recordVal(id int, digest string, present bool) {
+	if x.valDigest == nil {
+		x.valDigest = map[int]string{}
+	}
+	if present {
+		x.valDigest[id] = digest
+	}
+}
+
+// show: canonical text of the outbound traces. A reply carries the data as it was before the step, a notification
+// the data after it; the value token is the interned digest of the payload (v#0: the function holds no data).
+func (x *dispRun) show(t [dispNPeers + 1][]dispOut, before, after map[string]string, pan any, wrote bool) string {
+	for p := 1; p <= dispNPeers; p++ {
+		for i := range t[p] {
+			o := &t[p][i]
+			if o.kind != "reply" && o.kind != "notify" {
+				continue
+			}
+			src := h.AddrS(o.src)
+			switch {
+			case src == "0/0" && (o.fn == 904 || o.fn == 905):
+				o.valS = fmt.Sprintf("v#n%d", o.nEntries)
+			case src == "0/0":
+				o.valS = "v#0" // node management computes its data: not modelled
+			default:
+				cur := before
+				if o.kind == "notify" {
+					cur = after
+				}
+				if _, ok := cur[fmt.Sprintf("%s#%d", src, o.fn)]; !ok {
+					o.valS = "v#0"
+				} else {
+					o.valS = fmt.Sprintf("v#%d", x.digID(o.payload))
+				}
+			}
+		}
+	}
+	return dispShow(t, pan, wrote)
+}
+
+var dispValTok = regexp.MustCompile(`^v(\d+)$`)
+
+// translate rewrites the value ids of a model answer into interned digests (see show).
+func (x *dispRun) translate(want string) string {
+	groups := strings.Split(want, " | ")
+	for gi, g := range groups {
+		segs := strings.Split(g, "; ")
+		for si, sg := range segs {
+			f := strings.Fields(sg)
+			nm := false
+			for i, tk := range f {
+				if tk == "reply" && i+3 < len(f) && (f[i+2] == "904" || f[i+2] == "905") && f[i+3] == "0/0" {
+					nm = true
+				}
+				m := dispValTok.FindStringSubmatch(tk)
+				if m == nil {
+					continue
+				}
+				id, _ := strconv.Atoi(m[1])
+				switch {
+				case nm:
+					f[i] = "v#n" + m[1]
+				case id == 0:
+					f[i] = "v#0"
+				default:
+					if d, ok := x.valDigest[id]; ok {
+						f[i] = fmt.Sprintf("v#%d", x.digID(d))
+					} else {
+						f[i] = "v#?" + m[1]
+					}
+				}
+			}
+			segs[si] = strings.Join(f, " ")
+		}
+		groups[gi] = strings.Join(segs, "; ")
+	}
+	return strings.Join(groups, " | ")
+}
+
 func dispShow(t [dispNPeers + 1][]dispOut, pan any, wrote bool) string {
 	var groups []string
 	for p := 1; p <= dispNPeers; p++ {
@@ -636,9 +761,24 @@ func (x *dispRun) exec(op string) bool {
 		x.w = dispNewWorld(op)
 		x.spec = newDispSpec()
 		x.done = append(x.done, op)
+		// the data the local features hold from the start: one value id each
+		x.valSeq, x.valDigest, x.digIDs = 0, map[int]string{}, map[string]int{}
+		init := x.w.digest()
+		var keys []string
+		for k := range init {
+			keys = append(keys, k)
+		}
+		sort.Strings(keys)
+		var dataCfg []string
+		for _, k := range keys {
+			id := x.newVal()
+			x.recordVal(id, init[k], true)
+			kp := strings.SplitN(k, "#", 2)
+			dataCfg = append(dataCfg, fmt.Sprintf("data %s %s %d", kp[0], kp[1], id))
+		}
 		if x.d != nil {
 			bad := x.d.Ask("clear") != "ok"
-			for _, l := range x.w.cfg {
+			for _, l := range append(append([]string{}, x.w.cfg...), dataCfg...) {
 				if x.d.Ask(l) != "ok" {
 					bad = true
 				}
@@ -653,6 +793,9 @@ func (x *dispRun) exec(op string) bool {
 	}
 	if x.w == nil {
 		return false
+	}
+	if f[0] == "setdata" {
+		return x.execSetData(op, f)
 	}
 	p, _ := strconv.Atoi(f[1])
 	if p < 1 || p > dispNPeers {
@@ -709,7 +852,7 @@ func (x *dispRun) exec(op string) bool {
 			}
 		}
 		x.unchanged(before, "drop")
-		x.compare(op, op, dispShow(t, nil, false), "drop")
+		x.compare(op, op, x.show(t, nil, nil, nil, false), "drop")
 		return !x.failed
 	}
 	if !w.connected(p) {
@@ -731,7 +874,7 @@ func (x *dispRun) compare(op, line, impl, kind string) {
 	if x.d == nil {
 		return
 	}
-	want := x.d.Ask(line)
+	want := x.translate(x.d.Ask(line))
 	if impl != want {
 		x.r.Mismatch(x.done, impl, want, "dispatch op "+op)
 		x.failed = true
@@ -817,10 +960,17 @@ func (x *dispRun) execDg(op string, f []string, p int) bool {
 	w := x.w
 	src, dst := f[2], f[3]
 	ctr, _ := strconv.ParseUint(f[4], 10, 64)
+	hasCtr := f[4] != "-" // a request without msgCounter: not well-formed, served by the repaired code
 	refS, clsS, ack := f[5], f[6], f[7] == "1"
 	fn, _ := strconv.Atoi(f[8])
-	v, part, bad := 0, false, false
+	v, part, bad, noerr, dd := 0, false, false, false, "0"
 	for _, t := range f[9:] {
+		if t == "noerr" {
+			noerr = true // result data without error number
+		}
+		if strings.HasPrefix(t, "dd=") {
+			dd = t[3:] // device part of the destination: - omitted, 9 another device's address
+		}
 		if strings.HasPrefix(t, "v=") {
 			v, _ = strconv.Atoi(t[2:])
 		}
@@ -840,6 +990,15 @@ func (x *dispRun) execDg(op string, f []string, p int) bool {
 	cls := dispCls(clsS)
 	hd := model.HeaderType{AddressSource: h.FA(w.peers[p].dev, se, sf), AddressDestination: h.FA(dispLocalDev, de, df),
 		MsgCounter: util.Ptr(model.MsgCounterType(ctr)), CmdClassifier: &cls}
+	if !hasCtr {
+		hd.MsgCounter = nil
+	}
+	switch dd {
+	case "-":
+		hd.AddressDestination.Device = nil
+	case "9":
+		hd.AddressDestination.Device = util.Ptr(model.AddressDeviceType("OTHER"))
+	}
 	if refS != "-" {
 		rv, _ := strconv.ParseUint(refS, 10, 64)
 		hd.MsgCounterReference = util.Ptr(model.MsgCounterType(rv))
@@ -848,6 +1007,13 @@ func (x *dispRun) execDg(op string, f []string, p int) bool {
 		hd.AckRequest = &ack
 	}
 	cmd := dispCmd(fn, v, part)
+	if noerr && fn == 900 {
+		cmd.ResultData = &model.ResultDataType{}
+	}
+	valID := 0
+	if clsS == "write" {
+		valID = x.newVal() // the identity of this write as a value of the data it may set
+	}
 
 	// ---- facts of the moment, from the real objects through the public API (SPEC side)
 	srcAnnounced := w.peers[p].rd.FeatureByAddress(hd.AddressSource) != nil
@@ -869,7 +1035,7 @@ func (x *dispRun) execDg(op string, f []string, p int) bool {
 	if clsS == "write" && lf != nil && announcedWritable && registered && bad != engineRejects {
 		panic("op " + op + ": the bad token does not match the announced operations of the feature")
 	}
-	wf := !((clsS == "reply" || clsS == "result") && refS == "-") && ((fn == 900) == (clsS == "result"))
+	wf := !((clsS == "reply" || clsS == "result") && refS == "-") && ((fn == 900) == (clsS == "result")) && hasCtr && !noerr && dd == "0"
 
 	pan := w.inject(p, model.DatagramType{Header: hd, Payload: model.PayloadType{Cmd: []model.CmdType{cmd}}})
 	h.Settle(x.base)
@@ -885,11 +1051,15 @@ func (x *dispRun) execDg(op string, f []string, p int) bool {
 			}
 		}
 	}
-	impl := dispShow(t, pan, wrote)
+	after := w.digest()
+	if clsS == "write" {
+		d, ok := after[fmt.Sprintf("%s#%d", dst, fn)]
+		x.recordVal(valID, d, ok)
+	}
+	impl := x.show(t, before, after, pan, wrote)
 	if pan != nil {
 		impl = fmt.Sprintf("%d: panic", p)
 	}
-	after := w.digest()
 	changed := !reflect.DeepEqual(before, after)
 	shape := dispShape(t[p])
 	kind := clsS + ":" + shape
@@ -907,8 +1077,12 @@ func (x *dispRun) execDg(op string, f []string, p int) bool {
 	case !srcAnnounced || !wf:
 		// outside the quantifier of C01 (source not announced, or reply/result without reference, or result data
 		// under another classifier): recorded, and still nothing may change
-		if changed {
+		_, bound := x.spec.binds[dispPair{dst, p, src}]
+		if changed && !(clsS == "write" && srcAnnounced && announcedWritable && bound) {
 			x.fail("C03/data-changed-without-authorised-write", fmt.Sprintf("%s: %s", op, dispDiff(before, after)))
+		}
+		if srcAnnounced && pan == nil {
+			x.r.Eval("outside-wf:"+clsS+":"+shape, "")
 		}
 	default:
 		// C01: no response to any other peer
@@ -1060,6 +1234,9 @@ func (x *dispRun) execDg(op string, f []string, p int) bool {
 							if o.fn != fn || h.AddrS(o.src) != dst {
 								x.fail("C03/notification-content", fmt.Sprintf("%s: %s", op, o))
 							}
+							if cur, ok := after[key]; ok && o.payload != cur {
+								x.fail("C03/notification-content", fmt.Sprintf("%s: the notification carries %.120s, the data after the write is %.120s", op, o.payload, cur))
+							}
 						}
 					}
 				}
@@ -1094,7 +1271,88 @@ func (x *dispRun) execDg(op string, f []string, p int) bool {
 		if bad {
 			line += " bad"
 		}
-		want := x.d.Ask(line)
+		if noerr {
+			line += " noerr"
+		}
+		if dd != "0" {
+			line += " dd=" + dd
+		}
+		if clsS == "write" {
+			line += fmt.Sprintf(" val=%d", valID)
+		}
+		want := x.translate(x.d.Ask(line))
+		if impl != want {
+			x.r.Mismatch(x.done, impl, want, "dispatch op "+op)
+			x.failed = true
+		}
+	}
+	return !x.failed
+}
+
+// setdata <feature> <fn> [v=<k>] [part] — SetData (UpdateData with a partial filter for `part`) of the local
+// application through the public API: the value changes, the subscribers of the feature are notified, nobody gets a
+// reply or result.
+func (x *dispRun) execSetData(op string, f []string) bool {
+	w := x.w
+	e, fe := dispAddr(f[1])
+	fn, _ := strconv.Atoi(f[2])
+	lf := w.l.FeatureByAddress(h.FA(dispLocalDev, e, fe))
+	if lf == nil || lf.Type() == model.FeatureTypeTypeNodeManagement {
+		return false
+	}
+	if _, ok := dispFnName[fn]; !ok {
+		return false
+	}
+	v, part := 0, false
+	for _, t := range f[3:] {
+		if strings.HasPrefix(t, "v=") {
+			v, _ = strconv.Atoi(t[2:])
+		}
+		if t == "part" {
+			part = true
+		}
+	}
+	if part && (dispFnName[fn] != dispFnLimit || v == 0) {
+		return false
+	}
+	x.done = append(x.done, op)
+	cmd := dispCmd(fn, v, part)
+	payload := reflect.ValueOf(cmd).Field(dispFnField[dispFnName[fn]]).Interface()
+	before := w.digest()
+	valID := x.newVal()
+	pan := h.Recover(func() {
+		if part {
+			lf.UpdateData(model.FunctionType(dispFnName[fn]), payload, model.NewFilterTypePartial(), nil)
+		} else {
+			lf.SetData(model.FunctionType(dispFnName[fn]), payload)
+		}
+	})
+	h.Settle(x.base)
+	x.ev.take()
+	t := x.traces()
+	after := w.digest()
+	key := fmt.Sprintf("%s#%d", f[1], fn)
+	d, ok := after[key]
+	x.recordVal(valID, d, ok)
+	impl := x.show(t, before, after, pan, false)
+	if pan != nil {
+		impl = "panic"
+	}
+	for q := 1; q <= dispNPeers; q++ {
+		for _, o := range t[q] {
+			if o.isResponse() {
+				x.fail("C01/response-without-request", fmt.Sprintf("%s: peer %d received %s", op, q, o))
+			}
+		}
+	}
+	for k := range after {
+		if k != key && before[k] != after[k] {
+			x.fail("C03/write-changed-other-data", fmt.Sprintf("%s: %s", op, dispDiff(before, after)))
+		}
+	}
+	x.r.Eval("setdata", "")
+	if x.d != nil {
+		want := x.translate(x.d.Ask(fmt.Sprintf("setdata %s %d %d", f[1], fn, valID)))
 		if impl != want {
 			x.r.Mismatch(x.done, impl, want, "dispatch op "+op)
 			x.failed = true
@@ -1156,7 +1414,7 @@ func (x *dispRun) execCall(op string, f []string, p int) bool {
 	h.Settle(x.base)
 	evs := x.ev.take()
 	t := x.traces()
-	impl := dispShow(t, pan, false)
+	impl := x.show(t, nil, nil, pan, false)
 	if pan != nil {
 		impl = fmt.Sprintf("%d: panic", p)
 		x.fail("C05/panic-on-well-formed-datagram", fmt.Sprintf("%s: %v", op, pan))
@@ -1228,7 +1486,7 @@ func (x *dispRun) execCall(op string, f []string, p int) bool {
 	}
 	x.r.Eval(f[0]+":"+out, "")
 	if x.d != nil {
-		want := x.d.Ask(op)
+		want := x.translate(x.d.Ask(op))
 		if impl != want {
 			x.r.Mismatch(x.done, impl, want, "dispatch op "+op)
 			x.failed = true
@@ -1261,7 +1519,7 @@ func (x *dispRun) execEnt(op string, f []string, p int) bool {
 	h.Settle(x.base)
 	x.ev.take()
 	t := x.traces()
-	impl := dispShow(t, pan, false)
+	impl := x.show(t, nil, nil, pan, false)
 	shape := dispShape(t[p])
 	if pan != nil {
 		impl = fmt.Sprintf("%d: panic", p)
@@ -1302,7 +1560,7 @@ func (x *dispRun) execEnt(op string, f []string, p int) bool {
 	}
 	x.r.Eval(f[0], "")
 	if x.d != nil {
-		want := x.d.Ask(op)
+		want := x.translate(x.d.Ask(op))
 		if impl != want {
 			x.r.Mismatch(x.done, impl, want, "dispatch op "+op)
 			x.failed = true
@@ -1631,12 +1889,9 @@ func (g *dispGen) anyOp(p int) string {
 		// wedges the peer (DESIGN appendix A): C05's subject, never generated here
 		cls = "read"
 	}
-	if !dispOverviewPanics && cls == "result" {
-		fn = 900
-	}
 	ref := "-"
 	if cls == "reply" || cls == "result" || g.rng.Intn(4) == 0 {
-		if g.rng.Intn(12) > 0 || (!dispOverviewPanics && (cls == "reply" || cls == "result")) {
+		if g.rng.Intn(12) > 0 {
 			rr := w.peers[p].readReqs
 			if len(rr) > 0 && g.rng.Intn(2) == 0 {
 				ref = strconv.FormatUint(rr[len(rr)-1-g.rng.Intn(dispMin(len(rr), 3))], 10)
@@ -1649,7 +1904,38 @@ func (g *dispGen) anyOp(p int) string {
 	if cls == "write" && dispFnName[fn] == dispFnLimit {
 		extra = fmt.Sprintf(" v=%d", 3+g.rng.Intn(90)) // limit lists are always written with their three changeable limits
 	}
-	return fmt.Sprintf("dg %d %s %s %d %s %s %d %d%s", p, src, dst, g.next(), ref, cls, g.ack(), fn, extra)
+	// outside C01's quantifier, inside the correspondence (and C05's "still serves"): result data without error number,
+	// destination device omitted or foreign, and - only against a tree whose PrintMessageOverview is repaired, the
+	// member as written only approximates the panic on the first answer - requests without msgCounter
+	if fn == 900 && g.rng.Intn(10) == 0 {
+		extra += " noerr"
+	}
+	if g.rng.Intn(16) == 0 {
+		extra += g.pick([]string{" dd=-", " dd=9"})
+	}
+	ctr := strconv.FormatUint(g.next(), 10)
+	if !dispOverviewPanics && g.rng.Intn(20) == 0 {
+		ctr = "-"
+	}
+	return fmt.Sprintf("dg %d %s %s %s %s %s %d %d%s", p, src, dst, ctr, ref, cls, g.ack(), fn, extra)
+}
+
+// setOp: the local application sets data of a server feature (mostly the limit lists, in full or in part)
+func (g *dispGen) setOp() string {
+	srv := g.pick(dispServers)
+	if g.rng.Intn(3) > 0 {
+		srv = g.pick([]string{"1/1", "2/2"})
+	}
+	if srv == "1/1" || srv == "2/2" {
+		extra := ""
+		if g.rng.Intn(3) == 0 {
+			extra = " part"
+		}
+		return fmt.Sprintf("setdata %s %d v=%d%s", srv, dispFnID[dispFnLimit], 3+g.rng.Intn(90), extra)
+	}
+	e, f := dispAddr(srv)
+	fds := dispFds(g.x.w.l.FeatureByAddress(h.FA(dispLocalDev, e, f)).Type())
+	return fmt.Sprintf("setdata %s %d", srv, fds[g.rng.Intn(len(fds))])
 }
 
 // history generates and executes one random history online (the generator looks at the SPEC registry of the
@@ -1702,6 +1988,8 @@ func (env *dispEnv) history(rng interface{ Intn(int) int }, n int, c03 bool) *di
 			x.exec(fmt.Sprintf("entadd %d %d %d %d", p, 1+rng.Intn(2), g.next(), g.ack()))
 		case c < wShare+29:
 			x.exec(fmt.Sprintf("drop %d", p))
+		case c < wShare+34:
+			x.exec(g.setOp())
 		default:
 			x.exec(g.anyOp(p))
 		}
@@ -1761,13 +2049,14 @@ func TestDispatch(t *testing.T) {
 		return q.HasSpecFail("C03/binding-lost-to-other-peers-entity-removal")
 	})
 	// reply / result without reference, result without result data: PrintMessageOverview panics on them as written
-	// (C05). The model has no member for a repaired header layer, so they are generated only while they panic.
+	// (C05); the member overviewPanics = false is the repaired header layer, which serves them.
 	dispOverviewPanics = probe([]string{dispWorldFixed, "conn 1", "dg 1 1/1 1/3 101 - reply 0 " + strconv.Itoa(dispFnID[dispFnLimit])},
 		func(q *h.Report, _ *dispRun) bool { return q.Dist["reply:panic"] > 0 })
-	r.SetFlag("overviewPanics", dispOverviewPanics, nil, "reply/result without msgCounterReference panics in PrintMessageOverview (C05); when repaired such datagrams are no longer generated here")
-	if o := os.Getenv("VERIF_DISP_FLAGS"); len(o) == 3 {
+	env.fl.o = dispOverviewPanics
+	r.SetFlag("overviewPanics", dispOverviewPanics, nil, "reply/result without msgCounterReference, result without result data panic in PrintMessageOverview (C05); off: the repaired header layer serves them (requests without msgCounter are generated only then)")
+	if o := os.Getenv("VERIF_DISP_FLAGS"); len(o) == 4 {
 		// harness self-test only: force a member of the model family (a wrong member must disagree with the code)
-		env.fl = dispFlags{o[0] == '1', o[1] == '1', o[2] == '1'}
+		env.fl = dispFlags{o[0] == '1', o[1] == '1', o[2] == '1', o[3] == '1'}
 		r.Info["flags_forced"] = o
 	}
 	r.SetFlag("resultOnResult", env.fl.r, dispWitnessResult(), "a result addressed to an unknown local feature is answered with an error result (ProcessCmd)")
